@@ -96,6 +96,9 @@ CLAIMS = {
                  "after the limit but nothing is examined). Several disjoint plain roots (each bfs or dfs with its own depth window): searched one "
                  "after the other until the limit is reached, after which no root is examined; the limited search of all the roots reports the first "
                  "min(N, M) rows of the unlimited search (roots_streamed_any_plan, roots_reached, roots_streamed_limit). "
+                 "Grouped queries (D85 fixed: LIMIT was ignored for group rows): the model cuts the tie runs of the sorted group rows with cutRuns; "
+                 "grouped_limit_keeps_prefix, grouped_limit_on_boundary, grouped_limit_inside_run — the kept runs are the first runs in order, min(N, groups) rows "
+                 "are shown, and only inside the run of ties that straddles the cut is the choice of rows open (the hash order of the groups decides there). "
                  "Roots with options (symlinks, ignore files), overlapping roots and the footer are decided by correspondence and by the oracle against the unlimited run for every N in 1..M+2."),
         "ref": "DESIGN.md §4 C06",
     },
